@@ -46,7 +46,7 @@ MANIFEST = {
     "order, control arities, power operands, dagger parity preserved), equiv_iff_projections and equiv_iff_emit_eq (the congruence is "
     "exactly 'same projections'; the emission is its normal form), captures_threaded (call arguments match the modified function's "
     "input types position by position, outputs go back to the places they came from, captured variables are stably partitioned "
-    "non-copyable first), control_qubits_returned (element level: every control variable names its own wire again), pop_order_permutes, d17_old_order_mismatch.  Tied to /repo (T-obj) by lowering generated modifier stacks with the real "
+    "non-copyable first), control_qubits_returned (element level: for an arbitrary length-preserving callee, every control variable names its own wire again iff the callee returns the control arrays in place) and its in-place instance, pop_order_permutes, d17_old_order_mismatch.  Tied to /repo (T-obj) by lowering generated modifier stacks with the real "
     "compiler and extracting op chain and wiring from the Hugr.",
     "level_note": "partial: the statement's 'one operation per modifier in source order' is read modulo the congruence (the code cancels "
     "dagger pairs and groups by kind); run-time behaviour of tket.modifier ops is assumed. Model is of the repaired "
